@@ -625,11 +625,29 @@ func TestC16Free(t *testing.T) {
 // ---- C15: SwapValue increments are never lost ----
 
 func TestC15Free(t *testing.T) {
-	drive(t, "C15", "2..10 goroutines x 1..30 ops on two CContainers with real parallelism: {SwapValue(inc), GetValue, WaitValueChange} on a counter, and {SetValue(own increasing stamp) followed by GetValue, SwapValue(identity, yielding while it holds the lock), GetValue} on a cell of (writer, sequence) stamps; oracle: final counter == number of increments, callbacks never run concurrently, and reads are consistent with a single atomic cell: after its own SetValue returned a goroutine never reads one of its own older stamps, and the stamps of one writer seen by one reader never go backwards; non-trivial iff >= 2 goroutines; distinct by program", 30,
+	drive(t, "C15", "2..10 goroutines x 1..30 ops on two CContainers with real parallelism: {SwapValue(inc), GetValue, WaitValueChange} on a counter, and {SetValue(own increasing stamp) followed by GetValue, SwapValue(identity, yielding while it holds the lock), GetValue} on a cell of (writer, sequence) stamps; oracle: final counter == number of increments, callbacks never run concurrently, and reads are consistent with a single atomic cell: after its own SetValue returned a goroutine never reads one of its own older stamps, and the stamps of one writer seen by one reader never go backwards; a third cell holds 16-word arrays that are always stored uniform, every value read from it must be uniform; non-trivial iff >= 2 goroutines; distinct by program", 30,
 		func(cs Case, v *ev.Verdict) {
 			f := &failer{v: v}
 			c := ccontainer.NewCContainer(0)
 			c2 := ccontainer.NewCContainer(0)
+			// a multi-word value: every stored array is uniform, so a read that overlaps a write
+			// without synchronisation shows up as a mixed array ("a value the cell never held")
+			type wide [16]uint64
+			uniform := func(x uint64) (w wide) {
+				for i := range w {
+					w[i] = x
+				}
+				return w
+			}
+			c3 := ccontainer.NewCContainer(wide{})
+			lookWide := func(w wide, where string) {
+				for i := range w {
+					if w[i] != w[0] {
+						f.add("C15", "ccontainer:torn-value", "%s returned a value the cell never held: element 0 is %d, element %d is %d", where, w[0], i, w[i])
+						return
+					}
+				}
+			}
 			const stampBase = 1000000
 			var incs, inCb atomic.Int32
 			parallel(len(cs.G), func(g int) {
@@ -678,14 +696,21 @@ func TestC15Free(t *testing.T) {
 						c2.SetValue((g+1)*stampBase + own)
 						lastSeen[g] = own
 						look(c2.GetValue(), "GetValue")
+						c3.SetValue(uniform(uint64((g+1)*stampBase + own)))
+						lookWide(c3.GetValue(), "GetValue")
 					case 5:
 						// keep the second cell's lock busy for a while without changing it
 						look(c2.SwapValue(func(x int) int {
 							runtime.Gosched()
 							return x
 						}), "SwapValue")
+						lookWide(c3.SwapValue(func(x wide) wide {
+							lookWide(x, "SwapValue callback argument")
+							return uniform(x[0] + 1)
+						}), "SwapValue")
 					default:
 						look(c2.GetValue(), "GetValue")
+						lookWide(c3.GetValue(), "GetValue")
 					}
 				}
 			})
